@@ -1600,7 +1600,11 @@ func genScenario(r *rand.Rand, id int, class string) *Scenario {
 		sc.DelayUs, sc.Reorder = 200, 0
 		k := 40 + r.Intn(60)
 		for i := 0; i < k; i++ {
-			sc.Callers = append(sc.Callers, CallerSpec{Host: r.Intn(sc.NHosts), Kind: r.Intn(4), TimeoutMs: 250, CancelUs: -1, StartUs: int64(i)*300 + r.Int63n(200), Async: r.Intn(2) == 0})
+			cs := CallerSpec{Host: r.Intn(sc.NHosts), Kind: r.Intn(4), TimeoutMs: 250, CancelUs: -1, StartUs: int64(i)*300 + r.Int63n(200), Async: r.Intn(2) == 0}
+			if cs.Async && os.Getenv("VERIF_C18_IDLE_NODEADLINE") == "1" {
+				cs.Long = true
+			}
+			sc.Callers = append(sc.Callers, cs)
 		}
 		for i := 0; i < 2+r.Intn(4); i++ {
 			sc.Faults = append(sc.Faults, Fault{AtUs: 2000 + r.Int63n(int64(k)*300), Kind: "idle", N: 1})
